@@ -257,6 +257,18 @@ pub fn scenarios() -> Vec<Scenario> {
             inputs: vec!["."],
             recursive: false,
         },
+        Scenario {
+            name: "many_files_one_failing",
+            files: vec![("a_bad.txt.txtpp", s("-TXTPP#include nope.txt\n")), ("f00.txt.txtpp", s("file 0\\n-TXTPP#run echo 0\\n")), ("f01.txt.txtpp", s("file 1\\n-TXTPP#run echo 1\\n")), ("f02.txt.txtpp", s("file 2\\n-TXTPP#run echo 2\\n")), ("f03.txt.txtpp", s("file 3\\n-TXTPP#run echo 3\\n")), ("f04.txt.txtpp", s("file 4\\n-TXTPP#run echo 4\\n")), ("f05.txt.txtpp", s("file 5\\n-TXTPP#run echo 5\\n")), ("f06.txt.txtpp", s("file 6\\n-TXTPP#run echo 6\\n")), ("f07.txt.txtpp", s("file 7\\n-TXTPP#run echo 7\\n")), ("f08.txt.txtpp", s("file 8\\n-TXTPP#run echo 8\\n")), ("f09.txt.txtpp", s("file 9\\n-TXTPP#run echo 9\\n")), ("f10.txt.txtpp", s("file 10\\n-TXTPP#run echo 10\\n")), ("f11.txt.txtpp", s("file 11\\n-TXTPP#run echo 11\\n")), ("f12.txt.txtpp", s("file 12\\n-TXTPP#run echo 12\\n")), ("f13.txt.txtpp", s("file 13\\n-TXTPP#run echo 13\\n")), ("f14.txt.txtpp", s("file 14\\n-TXTPP#run echo 14\\n")), ("f15.txt.txtpp", s("file 15\\n-TXTPP#run echo 15\\n")), ("f16.txt.txtpp", s("file 16\\n-TXTPP#run echo 16\\n")), ("f17.txt.txtpp", s("file 17\\n-TXTPP#run echo 17\\n")), ("f18.txt.txtpp", s("file 18\\n-TXTPP#run echo 18\\n")), ("f19.txt.txtpp", s("file 19\\n-TXTPP#run echo 19\\n")), ("f20.txt.txtpp", s("file 20\\n-TXTPP#run echo 20\\n")), ("f21.txt.txtpp", s("file 21\\n-TXTPP#run echo 21\\n")), ("f22.txt.txtpp", s("file 22\\n-TXTPP#run echo 22\\n")), ("f23.txt.txtpp", s("file 23\\n-TXTPP#run echo 23\\n")), ("f24.txt.txtpp", s("file 24\\n-TXTPP#run echo 24\\n")), ("f25.txt.txtpp", s("file 25\\n-TXTPP#run echo 25\\n")), ("f26.txt.txtpp", s("file 26\\n-TXTPP#run echo 26\\n")), ("f27.txt.txtpp", s("file 27\\n-TXTPP#run echo 27\\n")), ("f28.txt.txtpp", s("file 28\\n-TXTPP#run echo 28\\n")), ("f29.txt.txtpp", s("file 29\\n-TXTPP#run echo 29\\n")), ("f30.txt.txtpp", s("file 30\\n-TXTPP#run echo 30\\n")), ("f31.txt.txtpp", s("file 31\\n-TXTPP#run echo 31\\n")), ("f32.txt.txtpp", s("file 32\\n-TXTPP#run echo 32\\n")), ("f33.txt.txtpp", s("file 33\\n-TXTPP#run echo 33\\n")), ("f34.txt.txtpp", s("file 34\\n-TXTPP#run echo 34\\n")), ("f35.txt.txtpp", s("file 35\\n-TXTPP#run echo 35\\n")), ("f36.txt.txtpp", s("file 36\\n-TXTPP#run echo 36\\n")), ("f37.txt.txtpp", s("file 37\\n-TXTPP#run echo 37\\n")), ("f38.txt.txtpp", s("file 38\\n-TXTPP#run echo 38\\n")), ("f39.txt.txtpp", s("file 39\\n-TXTPP#run echo 39\\n")), ],
+            inputs: vec!["."],
+            recursive: false,
+        },
+        Scenario {
+            name: "self_include_after_other_dep",
+            files: vec![("a.txt.txtpp", s("-TXTPP#include b.txt\n-TXTPP#include a.txt\n")), ("b.txt.txtpp", s("b\n")), ("ok.txt.txtpp", s("fine\n"))],
+            inputs: vec!["."],
+            recursive: false,
+        },
         Scenario { name: "missing_target", files: vec![("a.txt.txtpp", s("a\n"))], inputs: vec!["nothere.txt"], recursive: false },
     ]
 }
@@ -762,6 +774,8 @@ fn scenario_props(name: &str) -> &'static [&'static str] {
         "tag_single_line_foreign_le" => &["C12", "C14"],
         "directive_names_are_case_sensitive" => &["C15", "C16"],
         "custom_shell_one_word" => &["C17"],
+        "many_files_one_failing" => &["C04", "C18", "C03"],
+        "self_include_after_other_dep" => &["C05"],
         _ => &[],
     }
 }
@@ -1421,7 +1435,7 @@ fn run_one(work: &Path, sc: &Scenario, tn: bool) -> SysReport {
             }
             match run_real(cfg(&root, sc, Mode::Verify, 2, tn)) {
                 Ok(false) => {}
-                other => rep.fail(sc, &format!("Verify tn={tn} tamper={tname} file={}", o.display()), format!("{other:?} but the output was tampered with"), &["C06"]),
+                other => rep.fail(sc, &format!("Verify tn={tn} tamper={tname} file={}", o.display()), format!("{other:?} but the output was tampered with"), &["C06", "C04"]),
             }
             // verify never repairs
             let now = fs::read(root.join(o)).ok();
@@ -1479,10 +1493,13 @@ fn run_one(work: &Path, sc: &Scenario, tn: bool) -> SysReport {
             if is_output && matches!(mode, Mode::Build) {
                 continue; // a normal build rewrites outputs
             }
-            let f = fs::OpenOptions::new().write(true).open(&fp).unwrap();
-            f.set_modified(old).unwrap();
+            let Ok(f) = fs::OpenOptions::new().write(true).open(&fp) else {
+                rep.fail(sc, &format!("before {:?} tn={} on the up-to-date tree", mode, tn), format!("{} is gone: an earlier (failing) run deleted a generated file", g.display()), &["C10", "C06"]);
+                continue;
+            };
+            let _ = f.set_modified(old);
             drop(f);
-            let m = fs::metadata(&fp).unwrap();
+            let Ok(m) = fs::metadata(&fp) else { continue };
             stamps.insert(g.clone(), (m.ino(), m.mtime(), m.mtime_nsec()));
         }
         let props: &[&str] = match mode {
